@@ -632,7 +632,8 @@ CONFIG = {
              "classes, cache-flush bit, type numbers that belong to another kind); tiebreak on all ordered pairs of record lists of "
              "length <= 2 over 7 records (quick) / length <= 3 over 5 records (thorough), each executed from both probers' "
              "perspectives through the crate's encoder and decoder. From VERIF_SEED: random larger record sets, reordered / "
-             "one-record-changed copies, foreign owner names, probe not yet started; probe timing at 0/249/250/251/499/500/749/750/751 ms; "
+             "one-record-changed copies, foreign owner names, probe not yet started; probe timing at 0/249/250/251/499/500/749/750/751 ms; the send / end loop of a probe "
+             "(probe-run) over timely, late, bursty and random instants; "
              "renaming of 33 first labels (escaped dots and backslashes, multi-byte UTF-8, spaces, parentheses, hyphens) x 27 "
              "number spellings (0, 9, 99, leading zeros, '+', '-', 4294967294..4294967296, 20 digits, non-ASCII digits) as '(N)' and "
              "'-N' suffix x 6 tails, label lengths 55..65 and name lengths 249..256, repeated renaming; the name checks on 665 "
@@ -1296,9 +1297,11 @@ CONFIG["C07"] = dict(
              "any daemon state, jitter >= 1: announcement in the iteration at t0+j+750 and again at t0+j+1750); missing for "
              "the literal probe_lifecycle_full: jitter 0 in the composed theorem, 'exactly these packets and no others' "
              "for a symbolic service (shown on the evaluated instances)",
-             "the history invariant 'an active record was in the authority section of three probe queries 250 ms apart' is "
-             "false of the code without a timely scheduler and for shared probes (findings D31, D33, D34): proved instead is "
-             "active_only_after_probe (the probe is at least 750 ms old)",
+             "the history invariant 'an active record was in the authority section of three probe queries 250 ms apart' was "
+             "false of the code without a timely scheduler and for shared probes (D31, D33, D34 - all three repaired); "
+             "proved now, for a probe on its own at ANY instants of the loop: three_probes_whatever_the_scheduler, "
+             "three_probes_after_restart, joining_record_restarts_probe, active_only_after_probe (750 ms old AND three "
+             "queries sent); not composed into one history invariant over the whole daemon (re-registration, D32, is open)",
              "bounded time to the announced state is shown on the evaluated life cycles only (t0 + jitter + 750 ms)"],
     assumptions=_RESP_ASSUME,
 )
